@@ -154,10 +154,14 @@ class StreamStatistics:
             self.max_seq = packet.sequence_number
 
             if packet.timestamp != self._last_timestamp and self.packets_received > 1:
-                diff = abs(
+                # RFC 3550 A.8: arrival and RTP timestamps are 32-bit quantities,
+                # the transit difference is taken modulo 2^32 (signed)
+                diff = (
                     (arrival - self._last_arrival)
                     - (packet.timestamp - self._last_timestamp)
-                )
+                ) & 0xFFFFFFFF
+                if diff >= 0x80000000:
+                    diff = 0x100000000 - diff
                 self._jitter_q4 += diff - ((self._jitter_q4 + 8) >> 4)
 
             self._last_arrival = arrival
